@@ -18,6 +18,7 @@ from ..cfg import CFG
 from ..core import AnalysisError, Mutant
 from .. import facts
 from ..exprnorm import same_expr, spec
+from ..exprnorm import has_code
 
 EXPLANATION = (
     "For every subscript of the cell arrays in celllist.pyx (lowered, with C declarations): the "
@@ -60,12 +61,12 @@ def run(ctx):
     ci = s.func("CellList.__cinit__")
     t = ast.unparse(ci)
     ctx.ob("R1.same-grid-shape", CL, "CellList.__cinit__", "np.zeros(cell_count) for _cells and _cell_length",
-           "self._cells = np.zeros(cell_count, dtype=np.uint64)" in t and "self._cell_length = np.zeros(cell_count, dtype=np.int32)" in t,
+           has_code(ci, "self._cells = np.zeros(cell_count, dtype=np.uint64)") and has_code(ci, "self._cell_length = np.zeros(cell_count, dtype=np.int32)"),
            "the pointer grid and the length grid must be allocated with the same shape", ci.lineno)
     # constructor invariant: stored atoms are inside the grid
     ctx.ob("R1.constructor-invariant", CL, "CellList.__cinit__", "grid origin = nanmin(coord), count = (max - min) / size + 1",
            "min_coord = np.nanmin(coord, axis=0)" in t and "cell_count = ((max_coord - min_coord) / cell_size + 1).astype(int)" in t
-           and "self._min_coord = min_coord" in t,
+           and has_code(ci, "self._min_coord = min_coord"),
            "the grid must span minimum to maximum of the stored coordinates", ci.lineno)
     g = CFG(ci, lambda st: isinstance(st, ast.Raise))
     dom = g.dominators()
@@ -99,7 +100,7 @@ def run(ctx):
     # query points
     ctx.ob("R3.nonfinite-queries-skipped", CL, "CellList._find_adjacent_atoms", "if not finite_mask[pos_i]: continue",
            "if not finite_mask[pos_i]:\n        continue" in ast.unparse(fa).replace("            ", "    ").replace("        continue", "        continue")
-           or any(isinstance(st, ast.If) and "finite_mask[pos_i]" in ast.unparse(st.test) and any(isinstance(b, ast.Continue) for b in st.body)
+           or any(isinstance(st, ast.If) and has_code(st.test, "finite_mask[pos_i]") and any(isinstance(b, ast.Continue) for b in st.body)
                   for st in ast.walk(fa)),
            "a NaN query point has an undefined cell index and must be skipped", fa.lineno)
 
@@ -124,10 +125,10 @@ def run(ctx):
     txt = ast.unparse(defn[0])
     ctx.ob("R2.allocation-covers-visits", CL, "CellList._get_atoms_in_cells", txt,
            txt == "(2 * max_cell_radius + 1) ** 3 * self._max_cell_length"
-           and "max_cell_radius = np.max(cell_radii)" in ast.unparse(ga),
+           and has_code(ga, "max_cell_radius = np.max(cell_radii)"),
            "the buffer must hold (2r+1)^3 cells of the maximal cell length for the largest radius", defn[0].lineno)
     ctx.ob("R2.max-cell-length-maintained", CL, "CellList.__cinit__", "if length > self._max_cell_length: update",
-           "if length > self._max_cell_length:" in t and "self._max_cell_length = length" in t,
+           "if length > self._max_cell_length:" in t and has_code(ci, "self._max_cell_length = length"),
            "the maximal cell length bounds the unchecked writes and must follow every insertion", ci.lineno)
     # loop bounds of the visit use the per-query radius, which is <= the maximum
     # on each axis the loop runs over [c - r, c + r], possibly clipped to the grid [0, shape) by max/min in the range itself
@@ -167,7 +168,7 @@ def run(ctx):
            "is written under boundscheck(False)", pp.lineno)
     am = s.func("CellList._as_mask")
     ctx.ob("R3.mask-width", CL, "CellList._as_mask", "np.zeros((indices.shape[0], self._orig_length))",
-           "np.zeros((indices.shape[0], self._orig_length), dtype=np.uint8)" in ast.unparse(am)
+           has_code(am, "np.zeros((indices.shape[0], self._orig_length), dtype=np.uint8)")
            and "if index == -1:" in ast.unparse(am),
            "the mask has one column per original atom and stops at the -1 padding", am.lineno)
     pv = s.func("_prepare_vectorization")
